@@ -1265,4 +1265,60 @@ theorem define_right_angles (hT : T.Spec) (a b c : K) (ha : 0 < a) (hb : 0 < b) 
 example : ∃ k : Ctor ℚ, ∃ q, k.params? = some q ∧ q.family = .abc :=
   ⟨.monoclinic 2 3 4 100, _, rfl, rfl⟩
 
+/-! ### read-back of what was given, for every parameter set; uniqueness of the definition; the unit of length in degrees -/
+
+/-- **building from a parameter set and reading the same set back returns the values given** (before the setter clean-up): three
+    vectors + origin, LAMMPS lengths + tilts + origin, LAMMPS bounds + tilts, and lengths + angles in degrees + origin (positive
+    `b`, `c`). -/
+theorem raw_readback (hT : T.Spec) (x : Params K) (b : Box K) (h : defineRaw? T x = some b)
+    (hpos : ∀ a b' c al be ga o, x = .abc a b' c al be ga o → 0 < b' ∧ 0 < c) :
+    readAs? T x.family b = some x := by
+  cases x with
+  | vectors a b' c o =>
+    simp only [defineRaw?, Option.some.injEq] at h
+    subst h; rfl
+  | abc a b' c al be ga o =>
+    obtain ⟨hb, hc⟩ := hpos a b' c al be ga o rfl
+    exact abc_readback_degrees hT a b' c al be ga o b hb hc h
+  | lengths p o =>
+    obtain ⟨_, h2, h3⟩ := lengths_readback p o b h
+    simp only [Params.family, readAs?, h2, Option.map_some, h3]
+  | hilos p =>
+    obtain ⟨_, h2⟩ := hilos_readback p b h
+    simp only [Params.family, readAs?, h2, Option.map_some]
+
+/-- **uniqueness**: within one parameter set, two accepted definitions of the same cell are the same definition — the values
+    read back are the only ones that rebuild the cell. -/
+theorem raw_definition_unique (hT : T.Spec) (x y : Params K) (b : Box K) (hf : x.family = y.family)
+    (hx : defineRaw? T x = some b) (hy : defineRaw? T y = some b)
+    (hposx : ∀ a b' c al be ga o, x = .abc a b' c al be ga o → 0 < b' ∧ 0 < c)
+    (hposy : ∀ a b' c al be ga o, y = .abc a b' c al be ga o → 0 < b' ∧ 0 < c) : x = y := by
+  have e1 := raw_readback hT x b hx hposx
+  have e2 := raw_readback hT y b hy hposy
+  rw [hf, e2] at e1
+  exact (Option.some.inj e1).symm
+
+/-- the length getters scale with the unit of length. -/
+theorem lenOf_scale (hT : T.Spec) (s : K) (hs : 0 < s) (v : V3 K) : lenOf T (scaleV s v) = s * lenOf T v := by
+  have h0 : 0 ≤ s * lenOf T v := mul_nonneg hs.le (hT.sqrt_nonneg _)
+  have e : V3.normSq (scaleV s v) = (s * lenOf T v) * (s * lenOf T v) := by
+    have := lenOf_sq hT v
+    simp only [V3.normSq, V3.dot, scaleV] at this ⊢
+    linear_combination (s * s) * this.symm
+  show T.sqrt (V3.normSq (scaleV s v)) = s * lenOf T v
+  rw [e]; exact hT.sqrt_mul_self _ h0
+
+/-- **the angles in degrees do not depend on the unit of length**, the lengths scale with it. -/
+theorem angleDeg_scale (hT : T.Spec) (s : K) (hs : 0 < s) (u v : V3 K) (hu : 0 < V3.normSq u) (hv : 0 < V3.normSq v) :
+    angleDeg T (scaleV s u) (scaleV s v) = angleDeg T u v := by
+  have p1 := lenOf_pos hT u hu
+  have p2 := lenOf_pos hT v hv
+  have := angleCos_scale s (ne_of_gt hs) u v _ _ p1 p2
+  rw [abs_of_pos hs] at this
+  simp only [angleDeg, lenOf_scale hT s hs, this]
+
+example : ∃ (x y : Params ℚ), x.family = y.family ∧ x.family = .hilos ∧
+    defineRaw? ⟨id, id, id, 3⟩ x = defineRaw? ⟨id, id, id, 3⟩ y ∧ (defineRaw? ⟨id, id, id, 3⟩ x).isSome = true :=
+  ⟨.hilos ⟨1, 3, 2, 5, 3, 7, 1/2, 0, 1⟩, .hilos ⟨1, 3, 2, 5, 3, 7, 1/2, 0, 1⟩, by decide +kernel⟩
+
 end Atomman.C01
